@@ -1047,7 +1047,13 @@ int tls_record_get_handshake_certificate(const uint8_t *record, uint8_t *certs, 
 	}
 
 	*certslen = 0;
-	while (len) {
+	while (len)
+	VERIF_LOOP_ASSIGNS(cp, len, certs, *certslen, VERIF_OBJ_WHOLE(certs))
+	VERIF_LOOP_INVARIANT(len <= VERIF_LOOP_ENTRY(len) && *certslen <= TLS_MAX_CERTIFICATES_SIZE)
+	VERIF_LOOP_INVARIANT(len == 0 || (VERIF_SAME_OBJECT(cp, VERIF_LOOP_ENTRY(cp)) && VERIF_OFFSET(cp) + len == VERIF_OFFSET(VERIF_LOOP_ENTRY(cp)) + VERIF_LOOP_ENTRY(len)))
+	VERIF_LOOP_INVARIANT(VERIF_SAME_OBJECT(certs, VERIF_LOOP_ENTRY(certs)) && VERIF_OFFSET(certs) == VERIF_OFFSET(VERIF_LOOP_ENTRY(certs)) + *certslen)
+	VERIF_LOOP_DECREASES(len)
+	{
 		const uint8_t *a;
 		size_t alen;
 		const uint8_t *cert;
